@@ -158,22 +158,22 @@ def _shape(L):
 for L in range(1, 9):
     t = "quick" if L <= 4 else "thorough"
     for _p in ("C13", "C05"):
-      H(_p, t, "c13", f"c13_increment_l{L}", timeout=1200, model="none (pure arithmetic)", encodes=["CompressedUsedLeafsIndexes::increment"],
+      H(_p, t, "c13", f"c13_increment_l{L}", flagset="std64", timeout=1200, model="none (pure arithmetic)", encodes=["CompressedUsedLeafsIndexes::increment"],
       forall=_shape(L) + ", sum h <= 63", bounds="exact; unwind 34 covers u64::pow and the level loops", unwind=34)
     for _p in ("C13", "C05"):
-      H(_p, t, "c13", f"c13_lifetime_l{L}", timeout=3600, model="none", encodes=["HssPrivateKey::get_lifetime", "CompressedUsedLeafsIndexes::to", "LmsParameter::number_of_lm_ots_keys"],
+      H(_p, t if L <= 2 or _p == "C13" else "thorough", "c13", f"c13_lifetime_l{L}", flagset="std64", timeout=3600, model="none", encodes=["HssPrivateKey::get_lifetime", "CompressedUsedLeafsIndexes::to", "LmsParameter::number_of_lm_ots_keys"],
       forall=_shape(L) + ", sum h <= 63; key state as HssPrivateKey::from leaves it (upper levels used q_i+1, bottom q_L)", bounds="exact", unwind=34)
     for _p in ("C13", "C03"):
-      H(_p, t, "c13", f"c13_digits_l{L}", timeout=3600, model="none", encodes=["CompressedUsedLeafsIndexes::to"],
+      H(_p, t, "c13", f"c13_digits_l{L}", flagset="std64", timeout=3600, model="none", encodes=["CompressedUsedLeafsIndexes::to"],
       forall=_shape(L) + ", sum h <= 63", bounds="exact", unwind=34)
     for _p in ("C13", "C03"):
-      H(_p, "thorough" if L > 3 else "quick", "c13", f"c13_injective_l{L}", timeout=3600, model="none", encodes=["CompressedUsedLeafsIndexes::to"],
+      H(_p, "thorough" if L > 3 else "quick", "c13", f"c13_injective_l{L}", flagset="std64", timeout=3600, model="none", encodes=["CompressedUsedLeafsIndexes::to"],
       forall=_shape(L) + " twice (two counters), sum h <= 63, every prefix length", bounds="exact", unwind=34)
     if L >= 3:
-        H("C13", t, "c13", f"c13_tall_l{L}", timeout=3600, model="none",
+        H("C13", t, "c13", f"c13_tall_l{L}", flagset="std64", timeout=3600, model="none",
           encodes=["CompressedUsedLeafsIndexes::to", "CompressedUsedLeafsIndexes::increment", "HssPrivateKey::get_lifetime"],
           forall=f"every list of {L} levels with sum h >= 64, every 64-bit counter", bounds="exact", unwind=34)
-    H("C05", "quick" if L <= 2 else "thorough", "c13", f"c05_wipe_l{L}", timeout=3600, model="Havoc16 (no digest computed)",
+    H("C05", "quick" if L <= 1 else "thorough", "c13", f"c05_wipe_l{L}", flagset="std64", timeout=3600, model="Havoc16 (no digest computed)",
       encodes=["ReferenceImplPrivateKey::increment", "ReferenceImplPrivateKey::wipe", "ReferenceImplPrivateKey::to_binary_representation",
                "ReferenceImplPrivateKey::generate", "CompressedParameterSet::from/to", "CompressedUsedLeafsIndexes::increment"],
       forall=_shape(L) + ", every 16-byte seed", bounds="exact; n = 16", unwind=34)
@@ -257,7 +257,7 @@ for n in (16, 24, 32):
     H("C07", "quick", "c07", f"c07_lms_public_key_layout_n{n}", timeout=600, model=f"Havoc{n}", encodes=["LmsPublicKey::to_binary_representation"],
       forall="every tree identifier and root value", bounds="one (w, h) pair per n (type codes are constants of the parameter set)")
 for n in (16, 32):
-    H("C07", "quick", "c07", f"c07_lms_signature_layout_n{n}", config="w8", timeout=1800, model=f"Havoc{n}",
+    H("C07", "quick" if n == 16 else "thorough", "c07", f"c07_lms_signature_layout_n{n}", config="w8", timeout=1800, model=f"Havoc{n}",
       encodes=["LmsSignature::to_binary_representation", "LmotsSignature::to_binary_representation"],
       forall="every leaf index, randomizer, chain value and path node content; 3 chain values, 2 path nodes",
       bounds="element counts 3 / 2 (the serialiser is a loop over elements; more elements repeat the same body)")
@@ -265,7 +265,7 @@ for n in (16, 32):
 # ---------------------------------------------------------------------------------------------
 # C08 blob layout / nibble packing / public key layout
 for L in range(1, 9):
-    H("C08", "quick" if L in (1, 2, 8) else "thorough", "c08", f"c08_blob_n32_l{L}", timeout=1800, model="Havoc32 (no digest computed)",
+    H("C08", "quick" if L in (1, 8) else "thorough", "c08", f"c08_blob_n32_l{L}", timeout=1800, model="Havoc32 (no digest computed)",
       encodes=["ReferenceImplPrivateKey::generate / to_binary_representation / from_binary_representation", "CompressedParameterSet::from / to / from_slice",
                "CompressedUsedLeafsIndexes::new / from_slice", "HssParameter::new"],
       forall=f"every list of {L} levels over all 4 W x 5 H (symbolic), every 32-byte seed, every 64-bit counter", bounds="exact", unwind=36)
@@ -320,23 +320,26 @@ for n in (16, 24, 32):
           encodes=["generate_child_seed_and_lms_tree_identifier", "generate_signature_randomizer", "SeedDerive::seed_derive"],
           forall="every parent seed, identifier and 32-bit leaf index, every digest value", bounds="exact", unwind=70)
 for name in ("c08_ots_private_key_n16_w8", "c08_ots_private_key_n24_w8", "c08_ots_private_key_n32_w8", "c08_ots_private_key_n16_w4"):
-    H("C08", "quick", "c08d", name, config="w8" if name.endswith("w8") else "w4", timeout=1800, model=_rec, encodes=["lm_ots::keygen::generate_private_key"],
+    H("C08", "quick" if name.endswith("n16_w8") else "thorough", "c08d", name, config="w8" if name.endswith("w8") else "w4", timeout=3600, model=_rec, encodes=["lm_ots::keygen::generate_private_key"],
       forall="every seed, identifier, 32-bit leaf index, every digest value", bounds="p <= 35 chains (W8 for all n, W4 for n=16); the 265-chain case (n=32, W1) is outside", unwind=70)
 _recsum = _rec + "; Winternitz chain recorded as one summarised step (HashChain override), the default loop is covered by c07_chain_default_loop_*"
 for name in ("c08_ots_public_key_n16_w8", "c08_ots_public_key_n32_w8", "c08_ots_public_key_n16_w4"):
-    H("C08", "quick" if name.endswith("n16_w8") else "thorough", "c08d", name, config="w8" if name.endswith("w8") else "w4", timeout=3600, model=_recsum, encodes=["lm_ots::keygen::generate_public_key", "HashChain::prepare_hash_chain_data / do_hash_chain"],
+    H("C08", "thorough", "c08d", name, config="w8" if name.endswith("w8") else "w4", timeout=7200, model=_recsum, encodes=["lm_ots::keygen::generate_public_key", "HashChain::prepare_hash_chain_data / do_hash_chain"],
       forall="every chain start value, identifier, leaf index, every digest value", bounds="p <= 35 chains", unwind=70)
-for name in ("c07_ots_sign_and_candidate_n16_w8", "c07_ots_sign_and_candidate_n16_w4", "c07_ots_sign_and_candidate_n32_w8"):
-    for prop in ("C07", "C01"):
-        H(prop, "quick" if name.endswith("n16_w8") else "thorough", "c08d", name, config="w8" if name.endswith("w8") else "w4", timeout=3600, model=_recsum,
-          encodes=["LmotsSignature::sign / sign_core / calculate_signature / calculate_message_hash", "lm_ots::verify::generate_public_key_candidate",
-                   "LmotsParameter::append_checksum_to", "util::coef::coef", "HashChain::do_hash_chain"],
-          forall="every chain start value, identifier, leaf index, randomizer, message of length 0..5, every digest value; reference digits from the Appendix-B formula",
-          bounds="p <= 35 chains; message <= 5 bytes (longer messages only lengthen H::update)", unwind=70)
-for n in (16, 32):
+for half in ("sign", "candidate"):
+    for inst in ("n16_w8", "n16_w4", "n32_w8"):
+        for prop in ("C07", "C01", "C02") if half == "candidate" else ("C07", "C01"):
+            H(prop, "quick" if inst == "n16_w8" else "thorough", "c08d", f"c07_ots_{half}_transcript_{inst}", config="w8" if inst.endswith("w8") else "w4", timeout=7200, model=_recsum, unwind=70,
+              encodes=(["LmotsSignature::sign / sign_core / calculate_signature / calculate_message_hash"] if half == "sign" else ["lm_ots::verify::generate_public_key_candidate"])
+                      + ["LmotsParameter::append_checksum_to", "util::coef::coef", "HashChain::do_hash_chain"],
+              forall="every chain start value / signature value, identifier, leaf index, randomizer, message of length 0..5, every digest value; reference digits from the Appendix-B formula",
+              bounds="p <= 35 chains; message <= 5 bytes (longer messages only lengthen H::update)")
+for name in ("c07_chain_default_loop_n16", "c07_chain_default_loop_n16_tail", "c07_chain_default_loop_n16_empty", "c07_chain_default_loop_n32"):
     for prop in ("C07", "C08"):
-        H(prop, "quick", "c08d", f"c07_chain_default_loop_n{n}", timeout=900, model=_rec, encodes=["HashChain::do_hash_chain", "HashChain::do_actual_hash_chain (default body)", "HashChain::prepare_hash_chain_data"],
-          forall="every identifier, leaf index, 16-bit chain index, start value, start position 0..255, 0..3 steps", bounds="at most 3 consecutive steps per query (the loop body is the same for every j)", unwind=70)
+        H(prop, "quick", "c08d", name, timeout=1800, model=_rec, unwind=70,
+          encodes=["HashChain::do_hash_chain", "HashChain::do_actual_hash_chain (default body)", "HashChain::prepare_hash_chain_data"],
+          forall="every identifier, leaf index, 16-bit chain index and start value; start position / step count per instance: (0,3), (253,2), (7,0), (0,2)",
+          bounds="at most 3 consecutive steps (the loop body is the same for every j)")
 
 # ---------------------------------------------------------------------------------------------
 # C01 completeness: LM-OTS round trip (ToyLin family) and the signer's authentication-path rule
@@ -348,7 +351,7 @@ _toylin = ("ToyLinN: deterministic toy hash keyed by a symbolic 32-byte salt (a 
 #  x_i, verifier chain i runs a_i -> 2^w-1 from y_i, public key chain i runs 0 -> 2^w-1 from x_i)
 for h in (5, 10, 15, 20, 25):
     for prop in ("C01", "C07"):
-        H(prop, "quick", "c01", f"c01_l2_auth_path_rule_h{h}", config="w8", timeout=3600, model="ToyLin16 (only used for node(index) of the tree contract)", unwind=36,
+        H(prop, "quick" if h <= 10 else "thorough", "c01", f"c01_l2_auth_path_rule_h{h}", config="w8", timeout=3600, model="ToyLin16 (only used for node(index) of the tree contract)", unwind=36,
           encodes=["LmsSignature::sign / build_authentication_path", "LmsPrivateKey::use_lmots_private_key"], replayable=False,
           forall=f"every leaf index 0..2^{h}-1 (symbolic), every identifier", bounds="exact",
           stubs=DEFAULT_STUBS + ["lms::helper::get_tree_element -> node(index) = toy(index) (no tree is built)", "LmotsSignature::sign -> empty LM-OTS signature",
@@ -382,7 +385,7 @@ for prop in ("C10", "C11"):
     H(prop, "quick", "c10", "c10_expand_arbitrary_small_buffer", timeout=3600, model="Havoc16", unwind=40,
       encodes=["hss::aux::hss_is_aux_data_used", "hss::aux::hss_expand_aux_data"], forall="every buffer of every length 0..40 and content (every level word), with / without seed", bounds="cap 40 bytes")
 for prop in ("C04", "C09", "C05"):
-    H(prop, "quick", "c04", "c04_signing_key_entry_light_h5", config="l1w8h5", timeout=7200, model="HavocSum16", unwind=36, replayable=False, stubs=_light_stubs,
+    H(prop, "thorough", "c04", "c04_signing_key_entry_light_h5", config="l1w8h5", timeout=7200, model="HavocSum16", unwind=36, replayable=False, stubs=_light_stubs,
       encodes=_tail_fns + ["SigningKey::from_bytes / try_sign / try_sign_with_aux / as_slice"],
       forall="1 level H5/W8 (type byte assigned), every counter 0..31, every seed: in-memory key after try_sign, lifetime, second sign after exhaustion", bounds="n=16")
     H(prop, "thorough", "c04", "c04_signing_key_entry_light_h10_h5", config="l2w8", timeout=14400, model="HavocSum16", unwind=36, replayable=False, stubs=_light_stubs,
@@ -414,5 +417,5 @@ for name, tier in (("c09_sign_twice_contract_h5", "quick"), ("c09_sign_twice_con
       forall="every salt, seed, counter of the lifetime, 3-byte message; sign twice through hbs_lms::sign with another key's signing in between, once through SigningKey::try_sign",
       bounds="n=16; LMS layer by contract (deterministic under the toy family)")
 
-H("C16", "quick", "c13", "c05_wipe_l1", timeout=3600, model="Havoc16", unwind=34, encodes=["ReferenceImplPrivateKey::increment / wipe / to_binary_representation"],
+H("C16", "quick", "c13", "c05_wipe_l1", flagset="std64", timeout=3600, model="Havoc16", unwind=34, encodes=["ReferenceImplPrivateKey::increment / wipe / to_binary_representation"],
   forall="1 level, all heights, every counter and seed: the blob handed on after the last leaf carries no seed byte", bounds="exact; n = 16")
